@@ -1,6 +1,7 @@
 (* Entry point of the executable model: one case tree in, one result tree out. The first leaf selects
    the property, the second the operation. The harness sends the same case to the implementation. *)
-From ToughV Require Import Model.Base Model.Pct Model.Json Model.CJson Model.ClientRun Model.TName.
+From ToughV Require Import Model.Base Model.Pct Model.Json Model.CJson Model.ClientRun Model.TName
+     Model.Glob Model.Deleg.
 
 Definition run_C16 (op : N) (a : list tree) : tree :=
   match op, a with
@@ -34,12 +35,49 @@ Definition run_C08 (op : N) (a : list tree) : tree :=
   | _ => T [L 999]
   end.
 
+(* insertion sort of (name, len, digest) rows by name, for comparing targets_iter as a multiset *)
+Fixpoint insert_row (r : bytes * tinfo) (l : list (bytes * tinfo)) : list (bytes * tinfo) :=
+  match l with
+  | [] => [r]
+  | x :: t => if lex_ltb (fst x) (fst r) then x :: insert_row r t else r :: l
+  end.
+
+Definition run_C07 (op : N) (a : list tree) : tree :=
+  if op =? 0 then
+    match a with
+    | [ps; name; hexd] =>
+        match clean_name (t_bytes name) with
+        | inl _ => T [L 2]
+        | inr r => T [of_bool (pathset_matches (pathset_of_tree ps)
+                                 {| tn_raw := t_bytes name; tn_resolved := r; tn_hexdigest := t_bytes hexd |})]
+        end
+    | _ => T [L 999]
+    end
+  else if op =? 1 then
+    match a with
+    | [t; name] =>
+        T [match find_target (tname_of_tree name) (targets_of_tree 32 t) with
+           | Some i => T [L (ti_len i); L (ti_digest i)]
+           | None => T []
+           end]
+    | _ => T [L 999]
+    end
+  else
+    match a with
+    | [t] =>
+        let rows := fold_right insert_row []
+                      (map (fun ni => (tn_raw (fst ni), snd ni)) (targets_iter (targets_of_tree 32 t))) in
+        T (map (fun r => T [of_bytes (fst r); L (ti_len (snd r)); L (ti_digest (snd r))]) rows)
+    | _ => T [L 999]
+    end.
+
 Definition run_case (t : tree) : tree :=
   match t with
   | T (L p :: L op :: args) =>
       if p =? 16 then run_C16 op args
       else if p =? 11 then run_C11 op args
       else if p =? 8 then run_C08 op args
+      else if p =? 7 then run_C07 op args
       else if p =? 6 then run_client op args
       else T [L 999]
   | _ => T [L 999]
